@@ -179,6 +179,10 @@ func (h *Hub) UnregisterRemoteSKI(ski string) {
 
 	if existingC := h.connectionForSKI(ski); existingC != nil {
 		existingC.CloseConnection(true, 4500, "User close")
+
+		// the handshake of this connection may have reached hello ok since the trust was
+		// removed above, which marks the service as trusted again
+		service.SetTrusted(false)
 	}
 }
 
